@@ -450,6 +450,7 @@ def harness_result(res):
 
 
 class PCheck(core.Check):
+    state_measure = 'distinct sequences of (pipeline stage, system digest) pairs observed at the stage boundaries of a simulated run'
     """Base of the World P checks: one simulated run per scenario."""
     world = 'P'
     mode = 'fleet'
